@@ -71,6 +71,7 @@ type interpreter struct {
 	ufConcrete  map[string][]ufFact
 	ufApps      []ufApp
 	collisionFree bool
+	czCount     int
 }
 
 type deferred struct {
